@@ -264,6 +264,8 @@ class Ev:
                 return -v
             if isinstance(e.op, ast.UAdd):
                 return v
+            if isinstance(e.op, ast.Invert):
+                return ~v
             raise Undecided("unary " + U(e))
         if isinstance(e, ast.IfExp):
             return self.ev(e.body) if self.ev(e.test) else self.ev(e.orelse)
